@@ -166,7 +166,16 @@ def closed_country(b, rng, m, code, T, opts):
         h['mm'] = b.sector('MoneyMarket', c, None, issuer=govcode)
         if rng.random() < 0.7:
             h['dep'] = b.sector('DepositMarket', c, None, issuer=govcode)
-    if 'dep' in h:
+    if 'dep' in h and opts.get('fin') and rng.random() < 0.35:
+        # three assets: money (residual), deposits and a second interest-bearing asset, two explicit weights
+        h['bnd'] = b.sector('DepositMarket', c, 'BND', issuer=govcode)
+        w1 = round(rng.uniform(0.15, 0.4), 2)
+        w2 = round(rng.uniform(0.15, 0.4), 2)
+        b.add({'op': 'AssetWeighting', 'sector': h['hh'], 'weights': [['DEP', repr(w1)], ['BND', repr(w2)]], 'residual': 'MON',
+               'as_dict': rng.random() < 0.5})
+        set_exo(b, rng, h['dep'], 'r', path(rng, T, 0.0, 0.08, digits=3))
+        set_exo(b, rng, h['bnd'], 'r', path(rng, T, 0.0, 0.08, digits=3))
+    elif 'dep' in h:
         # household portfolio: weighting rule or explicit demands
         if rng.random() < 0.6:
             l0 = round(rng.uniform(0.2, 0.7), 3)
